@@ -257,6 +257,19 @@ class History(RuleBasedStateMachine):
             CX_SEEN.append(req)
         return req
 
+    @rule(n=st.sampled_from([2, 3, 5, 6, 7, 7, 8, 9, 9]), body=st.sampled_from(["[i * i + 1 for i in range(n)]", "[n - i for i in range(n)]"]),
+          use=st.sampled_from(["loop-then-index", "index-then-loop", "index-twice"]), bits=st.sampled_from(VEC_BITS))
+    def compile_a_constexpr_request_twice(self, n, body, use, bits):
+        # "compiling the same input again in the same process": the second compilation finds whatever the first one
+        # left in the constexpr cache
+        L = [HDR.rstrip("\n"), "@constexpr", "def table(n):", f"    return {body}", f"t = table({n})"]
+        idx = f"db.Setting = t[min(max(d0.Setting, 0), {n - 1})]"
+        loop = ["for v in t:", "    d1.Setting = v"]
+        L += {"loop-then-index": loop + [idx], "index-then-loop": [idx] + loop, "index-twice": [idx, idx.replace("d0", "d2")]}[use]
+        req = {"": "\n".join(L) + "\n"}
+        self._compile(req, bits & ~64, "fresh")
+        self._compile(req, bits & ~64, "fresh")
+
     @rule(i=st.integers(0, 1000), bits=st.sampled_from(VEC_BITS))
     def compile_a_constexpr_request_of_this_process_again(self, i, bits):
         # the cache the property names lives as long as the process, i.e. across the histories (examples) of a shard
